@@ -1,9 +1,47 @@
 (* C08 - the option parser assigns exactly what the command line says and nothing else.
    Statements only, each closed by `exact`, followed by Print Assumptions. *)
-From LV Require Import Base.Buf Gen.OptGen Opt.OptModel.
+From LV Require Import Base.Buf Gen.OptGen Opt.OptModel Opt.OptSafe.
 Local Open Scope Z_scope.
 
 (* the generator found every anchor it derives the constants of the model from *)
 Theorem C08_source_shape : optgen_errors = [].
 Proof. exact eq_refl. Qed.
 Print Assumptions C08_source_shape.
+
+(* parse_total_safe: EVERY argument vector (arbitrary bytes), every table whose value pointers point
+   into the target pools and whose boolean options have one, all settings: with the fuel parse_fuel
+   = 1 + sum (length arg + 2) the parser model returns Ok - it terminates and no access leaves argv,
+   an argument string (terminator included), the table, a target or its own arrays - and bad_opts is
+   the 8 bit sum of its start value and the number of CHECK_BAD()s; it only grows (no wrap) when the
+   help handler does not return and the limit is below 255. *)
+Theorem C08_parse_total_safe : forall e n sto bad,
+  length (e_strs e) = e_argc e -> wf_table n (e_tbl e) -> wf_store n sto -> 0 <= bad < 256 ->
+  exists out, parse e (init_st (e_argc e) sto bad) = Ok out /\
+    let s' := ost out in
+    length (st_argv s') = S (e_argc e) /\ wf_store n (st_sto s') /\
+    st_bad s' = (bad + Z.of_nat (st_nbad s')) mod 256 /\
+    (e_ret e = false -> bad <= e_allow e < 255 -> st_bad s' = bad + Z.of_nat (st_nbad s')).
+Proof. exact parse_total_safe. Qed.
+Print Assumptions C08_parse_total_safe.
+
+(* bool_mask_only, whole parse: a bit of a boolean target outside the masks of the boolean options
+   aimed at it, and every integer / string / list target no option of that kind is aimed at, keep
+   their values whatever the command line is; abstract handler calls are only appended *)
+Theorem C08_bool_mask_only : forall e n sto bad out,
+  length (e_strs e) = e_argc e -> wf_table n (e_tbl e) -> wf_store n sto -> 0 <= bad < 256 ->
+  parse e (init_st (e_argc e) sto bad) = Ok out ->
+  StoreRel (e_tbl e) sto (st_sto (ost out)).
+Proof. exact bool_mask_only. Qed.
+Print Assumptions C08_bool_mask_only.
+
+(* bool_mask_only, one option: handle_boolean leaves every other target alone and writes its own
+   as old | mask or old & ~mask (mask zero-extended from 32 bits) or not at all *)
+Theorem C08_handle_boolean_exact : forall e o sto val islong sto' r k,
+  handle_boolean e o sto val islong = Ok (sto', r) -> o_slot o = Some k ->
+  si sto' = si sto /\ ss sto' = ss sto /\ sl sto' = sl sto /\ sa sto' = sa sto /\
+  (sb sto' = sb sto \/
+   exists v, nth_error (sb sto) k = Some v /\
+             (sb sto' = upd (sb sto) k (Z.lor v (o_mask o mod mask_modulus)) \/
+              sb sto' = upd (sb sto) k (Z.land v (Z.lnot (o_mask o mod mask_modulus))))).
+Proof. exact handle_boolean_exact. Qed.
+Print Assumptions C08_handle_boolean_exact.
